@@ -575,3 +575,63 @@ class _NestAfterReturn(ast.NodeTransformer):
 
 
 _STMT_KINDS["nest-after-return"] = _NestAfterReturn
+
+
+class _ExtractTail(ast.NodeTransformer):
+    """the second half of a method's top-level statements moved into a new method of the class, called as `return self._tail_<name>(<locals it
+    reads>)` (methods with nested functions, yields, global/nonlocal or `del` are left alone)"""
+
+    def __init__(self):
+        self.n = 0
+
+    def visit_ClassDef(self, node):
+        self.generic_visit(node)
+        new_methods = []
+        for fn in list(node.body):
+            if not isinstance(fn, ast.FunctionDef) or not fn.args.args or fn.args.args[0].arg != "self" or fn.decorator_list:
+                continue
+            body = [s for s in fn.body]
+            doc = 1 if body and isinstance(body[0], ast.Expr) and isinstance(body[0].value, ast.Constant) and isinstance(body[0].value.value, str) else 0
+            stmts = body[doc:]
+            if len(stmts) < 6 or fn.name.startswith("__"):
+                continue
+            if any(isinstance(n, (ast.FunctionDef, ast.Lambda, ast.Yield, ast.YieldFrom, ast.Global, ast.Nonlocal, ast.Delete, ast.ClassDef, ast.AsyncFunctionDef,
+                                  ast.Try, ast.NamedExpr)) for s in stmts for n in ast.walk(s)):
+                continue
+            k = len(stmts) // 2
+            head, tail = stmts[:k], stmts[k:]
+            assigned_head = {n.id for s in head for n in ast.walk(s) if isinstance(n, ast.Name) and isinstance(n.ctx, ast.Store)}
+            params = [a.arg for a in fn.args.args[1:] + fn.args.kwonlyargs] + ([fn.args.vararg.arg] if fn.args.vararg else []) + (
+                [fn.args.kwarg.arg] if fn.args.kwarg else [])
+            # comprehension variables are local to the comprehension: not live-ins
+            comp_vars = {n.id for s in tail for c in ast.walk(s) if isinstance(c, ast.comprehension) for n in ast.walk(c.target) if isinstance(n, ast.Name)}
+            loaded = []
+            for s in tail:
+                for n in ast.walk(s):
+                    if isinstance(n, ast.Name) and isinstance(n.ctx, ast.Load) and n.id not in loaded:
+                        loaded.append(n.id)
+            # a name assigned in the tail before being read there could still be a live-in on another path: pass every candidate that exists
+            live = [x for x in loaded if (x in assigned_head or x in params) and x != "self"]
+            if any(x in comp_vars and (x in assigned_head or x in params) for x in loaded):
+                continue
+            # names first assigned in the head conditionally might be unbound: only names assigned at the top level of the head (or params) are passed
+            top_assigned = {t.id for s in head if isinstance(s, (ast.Assign, ast.AugAssign, ast.AnnAssign))
+                            for t in ast.walk(s) if isinstance(t, ast.Name) and isinstance(t.ctx, ast.Store)}
+            top_assigned |= {n.id for s in head if isinstance(s, (ast.For, ast.With)) for n in ast.walk(s) if isinstance(n, ast.Name) and isinstance(n.ctx, ast.Store)}
+            if any(x not in top_assigned and x not in params for x in live):
+                continue
+            name = f"_tail_{fn.name}"
+            helper = ast.FunctionDef(name=name, args=ast.arguments(posonlyargs=[], args=[ast.arg(arg="self")] + [ast.arg(arg=x) for x in live], vararg=None,
+                                                                   kwonlyargs=[], kw_defaults=[], kwarg=None, defaults=[]),
+                                     body=tail, decorator_list=[], returns=None, type_comment=None)
+            call = ast.Return(value=ast.Call(func=ast.Attribute(value=ast.Name(id="self", ctx=ast.Load()), attr=name, ctx=ast.Load()),
+                                             args=[ast.Name(id=x, ctx=ast.Load()) for x in live], keywords=[]))
+            fn.body = body[:doc] + head + [call]
+            new_methods.append((fn, helper))
+            self.n += 1
+        for fn, helper in new_methods:
+            node.body.insert(node.body.index(fn) + 1, helper)
+        return node
+
+
+_STMT_KINDS["extract-tail"] = _ExtractTail
